@@ -125,7 +125,9 @@ func (t *c04Tap) tables() []string {
 	for k := range t.dirs {
 		keys = append(keys, k)
 	}
-	sort.Slice(keys, func(i, j int) bool { return keys[i][0] < keys[j][0] || (keys[i][0] == keys[j][0] && keys[i][1] > keys[j][1]) })
+	sort.Slice(keys, func(i, j int) bool {
+		return keys[i][0] < keys[j][0] || (keys[i][0] == keys[j][0] && keys[i][1] > keys[j][1])
+	})
 	var out []string
 	for _, k := range keys {
 		d := t.dirs[k]
@@ -294,6 +296,8 @@ func c04AlignKey(k c04Case) string {
 		return "C04/tcp/aligned-reflection-delivered"
 	case "tcp-splice-aligned":
 		return "C04/tcp/aligned-splice-delivered"
+	case "tcp-mux-cut":
+		return "C04/tcp/multiplexed-prefix-cut-delivered"
 	}
 	return "C04/tcp/" + k.Special
 }
@@ -312,12 +316,19 @@ func c04AlignKey(k c04Case) string {
 //	tcp-splice-aligned   0 two connections of one user, client→server streams exchanged from the first byte
 //	                     1 connection 1 carries a COPY of connection 0's client→server stream (the server sees that nonce twice)
 //	                     2 connection 1's client receives a copy of connection 0's server→client stream
+//	tcp-mux-cut          two sessions multiplexed on ONE connection; the client→server stream is cut with the nonce advanced
+//	                     0 in front of the SECOND session's open request (that session is delivered completely, the first
+//	                       one not at all: the per-session filter, and a server session exists from its open request on)
+//	                     1 one unit earlier, in front of a data segment (first-segment validation: nothing is delivered)
 func c04RunAlign(c *core.Ctx, k c04Case) {
 	key, _ := json.Marshal(k)
 	cfg := sim.Config{UDP: false, MTU: k.MTU, Seed: k.Seed, ClientPattern: patFromJSON(k.ClientPattern), ServerPattern: patFromJSON(k.ServerPattern)}
 	// variant 4 of tcp-swap32: the server demands the user hint (last 4 nonce bytes = SHA-256(user ‖ first 16
 	// nonce bytes)[:4]); an advanced nonce no longer carries it
 	cfg.HintMandatory = k.Special == "tcp-swap32" && k.Mut.Param == 4
+	if k.Special == "tcp-mux-cut" {
+		cfg.Multiplex = 3
+	}
 	w, err := sim.NewWorld(cfg)
 	if err != nil {
 		c.Eval(string(key), false)
@@ -341,6 +352,8 @@ func c04RunAlign(c *core.Ctx, k c04Case) {
 		r.reflect()
 	case "tcp-splice-aligned":
 		r.splice()
+	case "tcp-mux-cut":
+		r.muxcut()
 	default:
 		c.Eval(string(key), false)
 		return
@@ -699,6 +712,129 @@ func (r *c04AlignRun) splice() {
 	r.srv.wg.Wait()
 }
 
+func (r *c04AlignRun) muxcut() {
+	k, tap := r.k, r.tap
+	v := k.Mut.Param
+	seed := k.Seed
+	// index of the second session's open request among the client→server units of connection 0
+	second := func(d *c04TapDir) int {
+		if len(d.units) == 0 {
+			return -1
+		}
+		first := d.units[0].Seg.SessionID
+		for i, u := range d.units {
+			if u.Seg.Proto == wire.OpenSessionRequest && u.Seg.SessionID != first {
+				return i
+			}
+		}
+		return -1
+	}
+	tap.rule = func(t *c04Tap, d *c04TapDir, b []byte) []byte {
+		if d.conn != 0 || !d.c2s {
+			return b
+		}
+		if d.fired {
+			out := append([]byte(nil), d.raw[d.cursor:]...)
+			d.cursor = len(d.raw)
+			return out
+		}
+		j := second(d)
+		if j < 2 || len(d.units) < j+3 {
+			return nil
+		}
+		if v == 1 {
+			j--
+		}
+		out := append([]byte(nil), addToNonce(d.units[0].Raw[:24], d.sealsBefore(j))...)
+		out = append(out, d.raw[d.ends[j-1]:]...)
+		d.cursor = len(d.raw)
+		d.fired = true
+		r.applied = true
+		t.note = fmt.Sprintf("stream cut in front of unit %d (type %d, session %d) of %d, %d seals removed", j, d.units[j].Seg.Proto, d.units[j].Seg.SessionID, len(d.units), d.sealsBefore(j))
+		return out
+	}
+	r.rxConn, r.rxIsClient = 0, false
+	r.srv.run(r.w, seed, []int{300, 500}, 40*time.Millisecond, nil, c04AlignQuiet, c04AlignBound)
+	var wg sync.WaitGroup
+	var conns []net.Conn
+	var peers []*c04Peer
+	// open requests seen so far: (on connection 0, on any connection) — call with the tap's lock held
+	opens := func() (int, int) {
+		on0, all := 0, 0
+		for _, d := range tap.dirs {
+			if !d.c2s {
+				continue
+			}
+			for _, u := range d.units {
+				if u.Seg.Proto == wire.OpenSessionRequest {
+					all++
+					if d.conn == 0 {
+						on0++
+					}
+				}
+			}
+		}
+		return on0, all
+	}
+	// the client multiplexes at random: dial until a second session shares connection 0 (sessions that got a
+	// connection of their own stay idle)
+	for i, tries := 0, 0; i < 2 && tries < 8; tries++ {
+		conn, p, err := r.dial(r.w.Client, fmt.Sprintf("client application of session %d", tries))
+		if err != nil {
+			r.why = "dial: " + err.Error()
+			return
+		}
+		wg.Add(1)
+		go p.readAll(conn, c04AlignQuiet, c04AlignBound, &wg)
+		tap.mu.Lock()
+		on0, all := opens()
+		tap.mu.Unlock()
+		p.write(conn, c04Fill(seed, 2*tries, 1500, 0))
+		var now0 int
+		if !r.waitFor(3*time.Second, func() bool {
+			a, b := opens()
+			now0 = a
+			return b > all
+		}) {
+			r.why = "a session's open request never appeared on the wire"
+			break
+		}
+		if now0 == on0 {
+			continue // this session got a connection of its own
+		}
+		conns, peers = append(conns, conn), append(peers, p)
+		if i == 0 {
+			p.write(conn, c04Fill(seed, 0, 700, 1500))
+			time.Sleep(30 * time.Millisecond)
+		}
+		i++
+	}
+	if len(conns) < 2 {
+		r.why = "no second session was multiplexed onto the first connection in 8 dials"
+		tap.mu.Lock()
+		tap.rule = nil
+		tap.mu.Unlock()
+		wg.Wait()
+		r.srv.wg.Wait()
+		return
+	}
+	second2 := len(r.clients) - 1
+	offs := []int{2200, 1500}
+	who := []int{0, 2 * second2}
+	for _, n := range []int{400, 900, 250} {
+		for i := range conns {
+			peers[i].write(conns[i], c04Fill(seed, who[i], n, offs[i]))
+			offs[i] += n
+		}
+		time.Sleep(30 * time.Millisecond)
+	}
+	wg.Wait()
+	r.srv.wg.Wait()
+	if !r.applied && r.why == "" {
+		r.why = "the second session's open request (and two units after it) never appeared on the wire"
+	}
+}
+
 // judge: direct oracle + model comparison
 func (r *c04AlignRun) judge() {
 	c, k := r.c, r.k
@@ -1018,6 +1154,9 @@ func c04AlignCases(r *rand.Rand, thorough bool) []c04Case {
 		for v := 0; v <= 2; v++ {
 			special("tcp-splice-aligned", "splice-aligned", pat, v)
 		}
+		for v := 0; v <= 1; v++ {
+			special("tcp-mux-cut", "mux-cut", pat, v)
+		}
 	}
 	// stream prefix removed with the clear-text nonce advanced: whole units (1, 2) and seal-counted
 	// (1 … 4: odd alignments start the receiver on a payload nonce), both directions, on every run
@@ -1036,6 +1175,18 @@ func c04AlignCases(r *rand.Rand, thorough bool) []c04Case {
 			}
 			for n := 1; n <= 4; n++ {
 				regular(pat, c2s, c04Mut{Kind: "nonce-advance-seals", Class: "nonce", Param: n})
+			}
+		}
+	}
+	// one padding bit of a low-entropy body flipped (first chunk / a later chunk), both directions, on every run:
+	// the canonical-padding check precedes the AEAD open (Props/C04 le_decode_then_open, tcp_tamper_low_entropy)
+	for _, pat := range []string{"le", "le4"} {
+		if pat == "le4" && !thorough {
+			continue
+		}
+		for _, c2s := range []bool{false, true} {
+			for p := 0; p <= 1; p++ {
+				regular(pat, c2s, c04Mut{Kind: "le-pad-flip", Class: "payload-ct", Unit: 1, Param: p})
 			}
 		}
 	}
